@@ -83,6 +83,16 @@ func (e *Env) eval(x Expr) Val {
 				return e.fail("cannot dereference %s", exprString(x.X))
 			}
 			return r.load(e.state(), l)
+		case "&":
+			l := e.r.specLoc(e, x.X)
+			if l == nil {
+				return e.fail("cannot take the address of %s", exprString(x.X))
+			}
+			var pt types.Type
+			if l.Typ != nil {
+				pt = types.NewPointer(l.Typ)
+			}
+			return termVal(e.r.mustTerm(locVal(l, pt), "address"), pt)
 		case "^":
 			v := e.eval(x.X)
 			if v.Typ != nil && isInteger(v.Typ) && isUnsigned(v.Typ) {
@@ -281,6 +291,17 @@ func (e *Env) isNil(v Val) Term {
 
 func (e *Env) index(x *EIndex) Val {
 	r := e.r
+	if id, ok := x.X.(*EIdent); ok && e.pkg != nil {
+		if _, bound := e.vars[id.Name]; !bound {
+			if obj, ok := e.pkg.Scope().Lookup(id.Name).(*types.Var); ok {
+				if _, isArr := obj.Type().Underlying().(*types.Array); isArr {
+					if l := r.specLoc(e, x); l != nil {
+						return r.load(e.state(), l)
+					}
+				}
+			}
+		}
+	}
 	v := e.eval(x.X)
 	i := e.term(e.eval(x.I))
 	if v.Kind == VTerm {
@@ -450,6 +471,45 @@ func (e *Env) call(x *ECall) Val {
 		}
 		comp, _ := r.elemComp(et)
 		return termVal(Select(Select(r.heapGet(e.state(), comp), slBase(e.term(v))), j), et)
+	case "as", "istype":
+		// as(x, "T"): payload of interface value x viewed as T; istype(x, "T"): dynamic type test
+		if !argN(2) {
+			return e.fail(name)
+		}
+		v := e.eval(x.Args[0])
+		ts, ok := x.Args[1].(*EStr)
+		if !ok {
+			return e.fail("%s needs a type string", name)
+		}
+		typ := r.resolveType(e.pkg, ts.V)
+		if typ == nil {
+			return e.fail("unknown type %q", ts.V)
+		}
+		t := e.term(v)
+		if t.Sort != SIface {
+			return e.fail("%s on a non-interface value", name)
+		}
+		if name == "istype" {
+			return termVal(Eq(ifTag(t), r.typeTag(typ)), boolT)
+		}
+		switch sortOf(typ) {
+		case SInt:
+			return termVal(ifVal(t), typ)
+		case SBool:
+			return termVal(Eq(ifVal(t), mkInt(1)), typ)
+		}
+		un := "unbox." + sanitize(sortOf(typ))
+		r.ctx.DeclareOnce(un, fmt.Sprintf("(declare-fun %s (Int) %s)", un, sortOf(typ)))
+		return termVal(app(sortOf(typ), un, ifVal(t)), typ)
+	case "bytes_at":
+		// bytes_at(base, j): byte j of the backing array identified by base
+		if !argN(2) {
+			return e.fail("bytes_at")
+		}
+		b := e.term(e.eval(x.Args[0]))
+		j := e.term(e.eval(x.Args[1]))
+		comp, _ := r.elemComp(types.Typ[types.Uint8])
+		return termVal(Select(Select(r.heapGet(e.state(), comp), b), j), types.Typ[types.Uint8])
 	case "seg":
 		// seg(a, i, b, j, n): a[i..i+n) == b[j..j+n) pointwise; a is read in the current state, b too
 		if !argN(5) {
@@ -660,6 +720,58 @@ func (r *Run) resolveType(pkg *types.Package, s string) types.Type {
 				if tn, ok := o.(*types.TypeName); ok {
 					return tn.Type()
 				}
+			}
+		}
+	}
+	return nil
+}
+
+// specLoc: the location designated by a contract expression (x.f, x[i], *p, global).
+func (r *Run) specLoc(e *Env, x Expr) *Loc {
+	switch x := x.(type) {
+	case *ESel:
+		v := e.eval(x.X)
+		return r.fieldByName(e.state(), v, x.Sel)
+	case *EUnary:
+		if x.Op == "*" {
+			return r.derefLoc(e.eval(x.X))
+		}
+	case *EIndex:
+		// element of a slice or of a global array
+		if id, ok := x.X.(*EIdent); ok && e.pkg != nil {
+			if _, bound := e.vars[id.Name]; !bound {
+				if obj, ok := e.pkg.Scope().Lookup(id.Name).(*types.Var); ok {
+					if arr, ok := obj.Type().Underlying().(*types.Array); ok {
+						gl := r.globalLoc(obj)
+						i := e.term(e.eval(x.I))
+						if gl.Kind == LElem {
+							return &Loc{Kind: LElem, Comp: gl.Comp, Sort: gl.Sort, Base: gl.Base, Off: Add(gl.Off, i), Typ: arr.Elem()}
+						}
+					}
+				}
+			}
+		}
+		v := e.eval(x.X)
+		if v.Kind == VTerm && v.T.Sort == SSlice {
+			var et types.Type = types.Typ[types.Uint8]
+			if v.Typ != nil {
+				if s, ok := v.Typ.Underlying().(*types.Slice); ok {
+					et = s.Elem()
+				}
+			}
+			comp, srt := r.elemComp(et)
+			i := e.term(e.eval(x.I))
+			return &Loc{Kind: LElem, Comp: comp, Sort: srt, Base: slBase(v.T), Off: Add(slOff(v.T), i), Typ: et}
+		}
+	case *EIdent:
+		if e.fr != nil {
+			if l := e.fr.lookupLocal(x.Name, e.pos); l != nil {
+				return l
+			}
+		}
+		if e.pkg != nil {
+			if obj, ok := e.pkg.Scope().Lookup(x.Name).(*types.Var); ok {
+				return r.globalLoc(obj)
 			}
 		}
 	}
